@@ -70,7 +70,7 @@ def hygiene():
 def coq_make(jobs=16, timeout=3000):
     """full .vo build of the static development (never -vos); incremental when nothing changed"""
     with Lock():
-        want = "-Q . Rex\n" + "\n".join(sorted(f for f in os.listdir(COQ) if f.endswith(".v") and f != "Extract.v")) + "\n"
+        want = "-Q . Rex\n" + "\n".join(sorted(f for f in os.listdir(COQ) if f.endswith(".v") and not f.startswith("Extract"))) + "\n"
         cp = os.path.join(COQ, "_CoqProject")
         if not os.path.exists(cp) or open(cp).read() != want: open(cp, "w").write(want)
         if not os.path.exists(os.path.join(COQ, "Makefile")) or \
@@ -225,25 +225,27 @@ def qval(v):
 
 # ------------------------------------------------------------------ OCaml runner
 def ocaml_build():
-    """extract (ExtrOcamlBasic only) and build ocaml/rexmodel"""
+    """extract (ExtrOcamlBasic only) and build ocaml/rexmodel (threaded-runtime model) and ocaml/rexmodel3 (compiled-runtime model)"""
     with Lock():
         od = os.path.join(VERIF, "ocaml")
-        binp = os.path.join(od, "rexmodel")
-        srcs = [os.path.join(COQ, "Extract.v"), os.path.join(od, "driver.ml")] + \
-               [os.path.join(COQ, f) for f in os.listdir(COQ) if f.endswith(".vo")]
-        if os.path.exists(binp) and all(os.path.getmtime(binp) >= os.path.getmtime(s) for s in srcs if os.path.exists(s)):
-            return True, ""
-        ok, log, _ = coqc("Extract.v", cwd=COQ)
-        if not ok: return False, log
-        for f in ("model.ml", "model.mli"):
-            os.replace(os.path.join(COQ, f), os.path.join(od, f))
-        rc, o, e, _ = sh("ocamlfind ocamlopt -O2 -w -a -package str model.mli model.ml driver.ml -linkpkg -o rexmodel 2>&1 || "
-                         "ocamlfind ocamlopt -w -a model.mli model.ml driver.ml -o rexmodel 2>&1", cwd=od, timeout=600)
-        return rc == 0, o + e
+        vos = [os.path.join(COQ, f) for f in os.listdir(COQ) if f.endswith(".vo")]
+        for (ext, ml, drv, binn) in (("Extract.v", "model", "driver.ml", "rexmodel"), ("Extract3.v", "cmodel", "driver3.ml", "rexmodel3")):
+            if not os.path.exists(os.path.join(COQ, ext)): continue
+            binp = os.path.join(od, binn)
+            srcs = [os.path.join(COQ, ext), os.path.join(od, drv)] + vos
+            if os.path.exists(binp) and all(os.path.getmtime(binp) >= os.path.getmtime(s) for s in srcs if os.path.exists(s)): continue
+            ok, log, _ = coqc(ext, cwd=COQ)
+            if not ok: return False, log
+            for f in (ml + ".ml", ml + ".mli"):
+                os.replace(os.path.join(COQ, f), os.path.join(od, f))
+            rc, o, e, _ = sh(f"ocamlfind ocamlopt -O2 -w -a {ml}.mli {ml}.ml {drv} -o {binn} 2>&1 || "
+                             f"ocamlfind ocamlopt -w -a {ml}.mli {ml}.ml {drv} -o {binn} 2>&1", cwd=od, timeout=600)
+            if rc != 0: return False, o + e
+        return True, ""
 
 
-def run_model(args, inp, timeout=600):
-    rc, o, e, dt = sh([os.path.join(VERIF, "ocaml", "rexmodel")] + list(args), inp=inp, timeout=timeout)
+def run_model(args, inp, timeout=600, binary="rexmodel"):
+    rc, o, e, dt = sh([os.path.join(VERIF, "ocaml", binary)] + list(args), inp=inp, timeout=timeout)
     if rc != 0: raise RuntimeError("rexmodel failed: " + (o + e)[-2000:])
     return o
 
